@@ -130,6 +130,10 @@ def call_builtin(eng, name, args, kwargs, st, node):
         return conv_float(eng, args[0], st, node)
     if name == 'bool':
         return [(st, vbool(eng.truth(args[0], node)))]
+    if name == 'hash' and len(args) == 1:
+        # some int: for str/bytes it depends on the interpreter's hash seed, so nothing more
+        # is known about it than its type
+        return [(st, vint(eng.fresh('hash', z3.IntSort())))]
     if name == 'abs':
         v = args[0]
         if v.k == 'int':
